@@ -272,6 +272,7 @@ func (p *parser) parseObjectPropertyKey() (string, string) {
 }
 
 func (p *parser) parseObjectProperty() ast.Property {
+	start := p.idx
 	literal, value := p.parseObjectPropertyKey()
 	if literal == "get" && p.token != token.COLON {
 		idx := p.idx
@@ -283,6 +284,7 @@ func (p *parser) parseObjectProperty() ast.Property {
 			ParameterList: parameterList,
 		}
 		p.parseFunctionBlock(node)
+		node.Source = p.slice(start, node.Idx1())
 		return ast.Property{
 			Key:   value,
 			Kind:  "get",
@@ -298,6 +300,7 @@ func (p *parser) parseObjectProperty() ast.Property {
 			ParameterList: parameterList,
 		}
 		p.parseFunctionBlock(node)
+		node.Source = p.slice(start, node.Idx1())
 		return ast.Property{
 			Key:   value,
 			Kind:  "set",
